@@ -173,11 +173,12 @@ class ProductState:
                 # Constructing the einsum str
                 einsum = ESC.measure_vector(remaining_states, [state])
 
-                # Project the state with einsum string
-                projected_state = jnp.einsum(einsum, ps)
+                # Marginal outcome probabilities: sum of |amplitude|^2 over the
+                # other states
+                projected_state = jnp.einsum(einsum, jnp.abs(ps) ** 2)
 
                 # Outcome Probabilities
-                probabilities = jnp.abs(projected_state.flatten()) ** 2
+                probabilities = projected_state.flatten()
                 probabilities /= jnp.sum(probabilities)
 
                 # Decide on output
